@@ -146,7 +146,10 @@ func TestVerif(t *testing.T) {
 			res.TraceDigest = hex.EncodeToString(h.Sum(nil))[:24]
 			res.Trace = nil
 		}
-		if res.HarnessError != "" {
+		// a run that recorded a violation and then could not be wound down
+		// cleanly (e.g. goroutines left blocked by the very deadlock it
+		// reports) is a violation, not harness trouble
+		if res.HarnessError != "" && res.Violation == nil {
 			wo.HarnessError = fmt.Sprintf("seed %d: %s", seed, res.HarnessError)
 			wo.Results = append(wo.Results, res)
 			break
